@@ -159,7 +159,7 @@ def explore_lines(prop, cfg, tier, seed, work, result, T):
                         cid = 'corpus-%d' % k
                         meta[cid] = ('corpus', '')
                         out.write('%s %s %s\n' % (eng, cid, rest))
-        profiles = ['debug'] + (['release'] if tier == 'thorough' else [])
+        profiles = T.get('profiles') or (['debug'] + (['release'] if tier == 'thorough' else []))
         for prof in profiles:
             base = os.path.join(work, 'run-' + prof)
             for ext in ('.cases', '.meta'):
